@@ -304,7 +304,7 @@ fn run_case_classified<C: Check>(check: &C, case: &C::Case, known: &[KnownEntry]
     }
 }
 
-fn shard_main<C: Check>(check: &C, tier: Tier, seed: u64, shard: usize, nshards: usize, out: &Path) {
+fn shard_main<C: Check>(check: &C, tier: Tier, seed: u64, shard: usize, nshards: usize, out: &Path, force_journal: bool) {
     quiet_panics();
     let mut acc = Acc::default();
     let known = load_known(check.id());
@@ -323,7 +323,7 @@ fn shard_main<C: Check>(check: &C, tier: Tier, seed: u64, shard: usize, nshards:
         let rng = TestRng::from_seed(RngAlgorithm::ChaCha, &mix(seed, check.id(), shard as u64));
         let mut runner = TestRunner::new_with_rng(cfg, rng);
         let strat = check.strategy(tier);
-        let isolate = check.isolate();
+        let isolate = check.isolate() || force_journal;
         let accref = RefCell::new(&mut acc);
         let first_failure: RefCell<Option<FailRec>> = RefCell::new(None);
         let res = runner.run(&strat, |case| {
@@ -404,6 +404,7 @@ struct Args {
     out: Option<PathBuf>,
     replay: Option<PathBuf>,
     one: Option<PathBuf>,
+    journal: bool,
 }
 
 fn parse_args(args: &[String]) -> Args {
@@ -416,6 +417,7 @@ fn parse_args(args: &[String]) -> Args {
         out: None,
         replay: None,
         one: None,
+        journal: false,
     };
     let mut i = 0;
     while i < args.len() {
@@ -437,6 +439,7 @@ fn parse_args(args: &[String]) -> Args {
                 a.replay = Some(PathBuf::from(&args[i + 1]));
                 i += 1;
             }
+            "--journal" => a.journal = true,
             "--one" => {
                 a.one = Some(PathBuf::from(&args[i + 1]));
                 i += 1;
@@ -494,7 +497,11 @@ fn one_main<C: Check>(check: &C, path: &Path) -> i32 {
 
 /// Evaluate one case, in a child process if the check asks for isolation.
 fn eval_case<C: Check>(check: &C, case_json: &Value, tmpdir: &Path) -> Result<Outcome, String> {
-    if check.isolate() {
+    eval_case_in(check, case_json, tmpdir, check.isolate())
+}
+
+fn eval_case_in<C: Check>(check: &C, case_json: &Value, tmpdir: &Path, child: bool) -> Result<Outcome, String> {
+    if child {
         let p = tmpdir.join(format!("one-{}.json", case_hash(&case_json.to_string())));
         std::fs::write(&p, serde_json::to_vec(case_json).unwrap()).map_err(|e| e.to_string())?;
         let exe = std::env::current_exe().map_err(|e| e.to_string())?;
@@ -536,6 +543,91 @@ fn eval_case<C: Check>(check: &C, case_json: &Value, tmpdir: &Path) -> Result<Ou
     }
 }
 
+
+/// Parent-side reduction for cases that could not be shrunk by proptest (the child process died,
+/// or the case came from a template): delta-debugging over the JSON arrays of the case ("ops",
+/// "threads", "ticks", "calls", ...). A candidate is kept only if it still fails with the same
+/// signature when evaluated alone. Bounded by `budget` evaluations.
+fn reduce_case<C: Check>(check: &C, case: Value, signature: &str, tmpdir: &Path, budget: usize) -> Value {
+    fn arrays(v: &Value, path: &mut Vec<String>, out: &mut Vec<Vec<String>>) {
+        match v {
+            Value::Array(a) => {
+                if a.len() >= 2 {
+                    out.push(path.clone());
+                }
+                for (i, x) in a.iter().enumerate() {
+                    path.push(i.to_string());
+                    arrays(x, path, out);
+                    path.pop();
+                }
+            }
+            Value::Object(o) => {
+                for (k, x) in o {
+                    path.push(k.clone());
+                    arrays(x, path, out);
+                    path.pop();
+                }
+            }
+            _ => {}
+        }
+    }
+    fn get_mut<'a>(v: &'a mut Value, path: &[String]) -> Option<&'a mut Value> {
+        let mut cur = v;
+        for p in path {
+            cur = match cur {
+                Value::Array(a) => a.get_mut(p.parse::<usize>().ok()?)?,
+                Value::Object(o) => o.get_mut(p)?,
+                _ => return None,
+            };
+        }
+        Some(cur)
+    }
+    let mut best = case;
+    let mut evals = 0usize;
+    let mut progress = true;
+    while progress && evals < budget {
+        progress = false;
+        let mut paths = vec![];
+        arrays(&best, &mut vec![], &mut paths);
+        // longest arrays first
+        paths.sort_by_key(|p| std::cmp::Reverse(get_mut(&mut best.clone(), p).and_then(|v| v.as_array().map(|a| a.len())).unwrap_or(0)));
+        'outer: for path in paths {
+            let len = match get_mut(&mut best.clone(), &path).and_then(|v| v.as_array().map(|a| a.len())) {
+                Some(l) if l >= 2 => l,
+                _ => continue,
+            };
+            let mut chunk = len / 2;
+            while chunk >= 1 {
+                let mut start = 0;
+                while start < len {
+                    if evals >= budget {
+                        break 'outer;
+                    }
+                    let mut cand = best.clone();
+                    if let Some(Value::Array(a)) = get_mut(&mut cand, &path) {
+                        let end = (start + chunk).min(a.len());
+                        if end - start >= a.len() {
+                            start += chunk;
+                            continue;
+                        }
+                        a.drain(start..end);
+                    }
+                    evals += 1;
+                    let still = eval_case(check, &cand, tmpdir).ok().and_then(|o| o.fail).map_or(false, |f| f.signature == signature);
+                    if still {
+                        best = cand;
+                        progress = true;
+                        continue 'outer;
+                    }
+                    start += chunk;
+                }
+                chunk /= 2;
+            }
+        }
+    }
+    best
+}
+
 fn write_replay(id: &str, rec: &FailRec) -> PathBuf {
     let dir = verif_root().join("replays").join(id);
     let _ = std::fs::create_dir_all(&dir);
@@ -549,7 +641,7 @@ fn write_replay(id: &str, rec: &FailRec) -> PathBuf {
 pub fn main_for<C: Check>(check: &C, args: &[String]) -> i32 {
     let a = parse_args(args);
     if let Some((i, k)) = a.shard {
-        shard_main(check, a.tier, seed_from_env(), i, k, a.out.as_deref().expect("--out"));
+        shard_main(check, a.tier, seed_from_env(), i, k, a.out.as_deref().expect("--out"), a.journal);
         return 0;
     }
     if let Some(p) = &a.one {
@@ -671,7 +763,9 @@ fn parent_main<C: Check>(check: &C, a: &Args, tmpdir: &Path) -> i32 {
                     *known_seen.entry(fl.signature.clone()).or_insert(0) += 1;
                     total.evaluations += 1;
                 } else {
-                    let rec = FailRec { case: cj, signature: fl.signature.clone(), message: fl.message.clone() };
+                    // templates are hand-written skeletons: reduce them for the replay file (first two only, bounded)
+                    let reduced = if violations.len() < 2 { reduce_case(check, cj.clone(), &fl.signature, tmpdir, 60) } else { cj.clone() };
+                    let rec = FailRec { case: reduced, signature: fl.signature.clone(), message: fl.message.clone() };
                     let p = write_replay(id, &rec);
                     println!("template case FAILS [{}] {}", fl.signature, fl.message);
                     violations.push((p, fl.signature.clone()));
@@ -772,9 +866,10 @@ fn parent_main<C: Check>(check: &C, a: &Args, tmpdir: &Path) -> i32 {
                             if known.iter().any(|k| k.status == "known" && k.signature == f.signature) {
                                 *known_seen.entry(f.signature.clone()).or_insert(0) += 1;
                             } else {
-                                let rec = FailRec { signature: f.signature.clone(), message: f.message.clone(), ..rec };
+                                let reduced = reduce_case(check, rec.case.clone(), &f.signature, tmpdir, 120);
+                                let rec = FailRec { signature: f.signature.clone(), message: f.message.clone(), case: reduced };
                                 let p = write_replay(id, &rec);
-                                println!("shard {i}: child died; case confirmed failing alone [{}] {}", f.signature, f.message);
+                                println!("shard {i}: child died; case confirmed failing alone [{}] {} (replay reduced by parent-side delta debugging)", f.signature, f.message);
                                 violations.push((p, f.signature));
                             }
                         }
@@ -784,8 +879,50 @@ fn parent_main<C: Check>(check: &C, a: &Args, tmpdir: &Path) -> i32 {
                         }
                     }
                 } else {
-                    println!("INCONCLUSIVE property={id}: shard {i} died without report ({st:?}): {}", err.lines().rev().take(6).collect::<Vec<_>>().join(" | "));
-                    infra_fail = true;
+                    // a shard that does not journal its cases died (abort / signal: memory corruption?): the
+                    // generated tier is deterministic, so run that shard again with journaling to find the case
+                    let out2 = tmpdir.join(format!("shard-{i}-journal.json"));
+                    let st2 = std::process::Command::new(&exe)
+                        .arg(id)
+                        .arg("--tier")
+                        .arg(a.tier.name())
+                        .arg("--shard")
+                        .arg(format!("{i}/{nshards}"))
+                        .arg("--out")
+                        .arg(&out2)
+                        .arg("--journal")
+                        .env("VERIF_SEED", seed.to_string())
+                        .stdout(std::process::Stdio::null())
+                        .stderr(std::process::Stdio::null())
+                        .status();
+                    let cur2 = out2.with_extension("cur");
+                    let case = std::fs::read(&cur2).ok().and_then(|b| serde_json::from_slice::<Value>(&b).ok());
+                    match (case, out2.exists()) {
+                        (Some(case), false) => {
+                            let verdict = eval_case_in(check, &case, tmpdir, true).ok().and_then(|o| o.fail);
+                            match verdict {
+                                Some(f) => {
+                                    let sig = if f.signature == "abnormal-exit" { "process-crash".to_string() } else { f.signature.clone() };
+                                    if known.iter().any(|k| k.status == "known" && k.signature == sig) {
+                                        *known_seen.entry(sig).or_insert(0) += 1;
+                                    } else {
+                                        let rec = FailRec { case, signature: sig.clone(), message: format!("the process died while executing this case ({st:?}; {}); alone in a child process: {}", err.lines().rev().take(2).collect::<Vec<_>>().join(" | "), f.message) };
+                                        let p = write_replay(id, &rec);
+                                        println!("shard {i}: process died ({st:?}); journaled re-run blames this case [{}] {}", sig, rec.message);
+                                        violations.push((p, sig));
+                                    }
+                                }
+                                None => {
+                                    println!("INCONCLUSIVE property={id}: shard {i} died ({st:?}) and again with journaling, but the blamed case passes alone");
+                                    infra_fail = true;
+                                }
+                            }
+                        }
+                        _ => {
+                            println!("INCONCLUSIVE property={id}: shard {i} died without report ({st:?}; journaled re-run: {st2:?}): {}", err.lines().rev().take(6).collect::<Vec<_>>().join(" | "));
+                            infra_fail = true;
+                        }
+                    }
                 }
             }
         }
